@@ -63,6 +63,9 @@ class DefaultTrackerHandler(ResultHandler):
         self._constraint_tolerance = constraint_tolerance
         self._sources = set() if sources is None else sources
         self["results"] = None
+        # The optimal result and its counterpart in the optimizer domain:
+        self._optimal_result: FunctionResults | None = None
+        self._optimal_transformed_result: FunctionResults | None = None
 
     def handle_event(self, event: Event) -> None:
         """Handle an event.
@@ -80,11 +83,17 @@ class DefaultTrackerHandler(ResultHandler):
             filtered_results: FunctionResults | None = None
             match self._what:
                 case "best":
-                    filtered_results = _update_optimal_result(
-                        self["results"],
-                        results,
-                        transformed_results,
-                        self._constraint_tolerance,
+                    if self["results"] is not self._optimal_result:
+                        # The stored result was reset or replaced via the plan:
+                        self._optimal_result = self["results"]
+                        self._optimal_transformed_result = self["results"]
+                    filtered_results, self._optimal_transformed_result = (
+                        _update_optimal_result(
+                            self._optimal_transformed_result,
+                            results,
+                            transformed_results,
+                            self._constraint_tolerance,
+                        )
                     )
                 case "last":
                     filtered_results = _get_last_result(
@@ -94,3 +103,4 @@ class DefaultTrackerHandler(ResultHandler):
                     )
             if filtered_results is not None:
                 self["results"] = filtered_results
+                self._optimal_result = filtered_results
